@@ -123,3 +123,46 @@ lemma(
            ("dec", (P, "_decode_object_header"), ["raw"])],
     show=["dec[0] == type_num", "dec[1] == size"],
 )
+
+# ---- the same encoder for OFS_DELTA objects: size part as above, then the base offset in git's offset code ----------
+# (second contract on the same function: "#ofs" names the input class type_num == 6, delta_base an int >= 1)
+H = "(len(result) - len(ret))"
+contract(
+    prop=["C02"], file=P, func="pack_object_header#ofs",
+    params={"type_num": "int", "delta_base": "int", "size": "int", "object_format": "opaque"}, returns="bytearray",
+    requires=["type_num == 6", "size >= 0", "delta_base >= 1"],
+    ghost_params={},
+    ensures=[
+        "len(result) >= 2",
+        "(result[0] // 16) % 8 == 6",
+        # H = len(result) - len(ret) is the end of the size part: continuation bits on all its bytes but the last (so the
+        # decoders' take_msb_bytes_at stops exactly there: msb_end(result, 0) == H), the rest is the offset code of delta_base
+        f"{H} >= 1 and {H} < len(result)",
+        f"all(result[k] >= 128 for k in range(0, {H} - 1))",
+        f"result[{H} - 1] < 128",
+        f"result[0] % 16 + 16 * le128(result, 1, {H}) == size",
+        f"ofsval(result, {H}, len(result)) == delta_base",
+        f"all(result[k] >= 128 for k in range({H}, len(result) - 1))",
+        "result[len(result) - 1] < 128",
+    ],
+    loops={
+        1: dict(
+            invariant=[
+                "size >= 0 and 0 <= c and c < 128",
+                "all(header[k] >= 128 and header[k] <= 255 for k in range(0, len(header)))",
+                "(len(header) == 0 and c == type_num * 16 + old(size) % 16 and size == old(size) // 16) or "
+                "(len(header) >= 1 and header[0] == 128 + type_num * 16 + old(size) % 16 and c < 128 and "
+                " old(size) // 16 == le128(header, 1, len(header)) + (c + 128 * size) * 2 ** (7 * (len(header) - 1)))",
+            ],
+            decreases="size", types={"header": "list[int]"}),
+        2: dict(
+            invariant=[
+                "delta_base >= 0 and len(ret) >= 1",
+                "all(ret[k] >= 128 and ret[k] <= 255 for k in range(0, len(ret) - 1))",
+                "0 <= ret[len(ret) - 1] and ret[len(ret) - 1] < 128",
+                # value so far: what is still to be encoded, shifted past the bytes already produced
+                "old(delta_base) == delta_base * 2 ** (7 * len(ret)) + ofsval(ret, 0, len(ret))",
+            ],
+            decreases="delta_base", types={"ret": "list[int]"}, keep=["header"]),
+    },
+)
